@@ -23,6 +23,9 @@ var condTable = []condValue{
 	{model.Bool(true), true}, {model.Int(1), true}, {model.Int(-1), true}, {model.Float(0.5), true}, {model.Str(" "), true},
 	{model.Float(1e-10), true}, {model.Float(-1e-300), true}, {model.Float(5e-324), true}, {model.Int(-9223372036854775807 - 1), true},
 	{model.Str("0"), true}, {model.Arr(), true}, {model.Obj(nil), true}, {model.Arr(model.Int(0)), true}, {model.Float(-0.25), true},
+	// literals whose braces and brackets close next to each other
+	{model.Obj(map[string]model.Value{"a": model.Obj(nil)}), true}, {model.Obj(map[string]model.Value{"a": model.Obj(map[string]model.Value{"b": model.Obj(map[string]model.Value{"c": model.Int(0)})})}), true},
+	{model.Arr(model.Obj(nil), model.Arr(model.Arr())), true},
 }
 
 func poolOf(truthy bool) []model.Value {
